@@ -485,6 +485,14 @@ def r5(ctx, F):
                         eq_e = oc.get('true' if rv['op'] == 'Eq' else 'false')
                         if eq_e and cfg.edges_guard(eq_e, bi):
                             g_eq = True
+                        # decide-then-act: the written value is the payload of a checked_add that itself ran only on the
+                        # contiguous edge (the payload of an Option exists on its Some paths only, so the update inherits both guards)
+                        vo = [o for o in fl.origins(st['rv']['ops'][0]) if o.kind != 'comb']
+                        if eq_e and vo and all(o.kind == 'call' and o.key.endswith('::checked_add') and o.bb is not None and cfg.edges_guard(eq_e, o.bb) for o in vo):
+                            g_eq = True
+    vo_ = [o for o in fl.origins(st['rv']['ops'][0]) if o.kind != 'comb']
+    if vo_ and all(o.kind == 'call' and o.key.endswith('::checked_add') for o in vo_):
+        g_chk = True        # only the Some payload of checked_add is ever written
     ctx.check(g_chk and new_from_chk and g_eq, 'C01.R5', 'push_copy:merge-guards', 'merge only if prev_offset + prev_len == offset and checked_add is Some',
               'push_copy merges copies that are not contiguous or lets the merged length wrap (contiguity guard: %s, checked_add: %s)' % (g_eq, g_chk and new_from_chk), loc(b, b.lo))
     # otherwise a new op is pushed
